@@ -49,6 +49,25 @@ type Frame struct {
 	free   map[*ssa.FreeVar]Val
 	fc     *FuncCtx
 	parent *Frame
+	defers []*ssa.Defer // deferred closures (registered in the entry block) to execute at RunDefers, see instr.go
+}
+
+// deferredClosureWrites reports whether d defers a function literal that writes a variable it captures.
+func deferredClosureWrites(d *ssa.Defer) bool {
+	mc, ok := d.Call.Value.(*ssa.MakeClosure)
+	if !ok {
+		return false
+	}
+	for _, b := range mc.Fn.(*ssa.Function).Blocks {
+		for _, in := range b.Instrs {
+			if s, ok := in.(*ssa.Store); ok {
+				if _, isFV := s.Addr.(*ssa.FreeVar); isFV {
+					return true
+				}
+			}
+		}
+	}
+	return false
 }
 
 type retInfo struct {
@@ -111,9 +130,13 @@ func (v *Verifier) VerifyFunction(key string) {
 	c := v.c
 	alloc0 := v.getGlobal(st, "$alloc")
 	st.assume(c, c.Cmp(">", alloc0, c.Int(0)))
-	for _, p := range fn.Params {
+	for pi, p := range fn.Params {
 		so := v.tm.SortOf(p.Type())
 		name := p.Name()
+		if name == "_" {
+			// several blank parameters of different types would share one constant name
+			name = fmt.Sprintf("_%d", pi)
+		}
 		t := c.Const(fc.short+"."+name, so)
 		fr.vals[p] = Val{T: t, GoT: p.Type()}
 		fc.paramSV[name] = SV{T: t, GoT: p.Type()}
@@ -143,7 +166,7 @@ func (v *Verifier) VerifyFunction(key string) {
 			unsupported("params clause has %d names, function has %d", len(spec.ParamNames), len(fn.Params))
 		}
 		for i, n := range spec.ParamNames {
-			fc.paramSV[n] = fc.paramSV[fn.Params[i].Name()]
+			fc.paramSV[n] = fc.paramSV[fc.paramOrder[i]]
 		}
 	}
 	res := fn.Signature.Results()
@@ -286,6 +309,20 @@ func (fc *FuncCtx) env(st, old *State) *Env {
 			var n int
 			if _, err := fmt.Sscanf(name[k+1:], "%d", &n); err == nil {
 				base, pick = name[:k], n-1
+			}
+		}
+		// a parameter renamed by the `params` clause is the same variable under its contract name (loop invariants,
+		// call-site clauses): resolve it to the Go name's cell, or to the entry value when it has none (blank parameter)
+		if fc.spec != nil && pick < 0 && len(fc.allocsByName[base]) == 0 {
+			for i, n := range fc.spec.ParamNames {
+				if n == base && i < len(fc.fn.Params) {
+					if gn := fc.fn.Params[i].Name(); gn != "_" && len(fc.allocsByName[gn]) > 0 {
+						base = gn
+					} else if sv, ok := fc.paramSV[n]; ok {
+						return sv, true, nil
+					}
+					break
+				}
 			}
 		}
 		as := fc.allocsByName[base]
@@ -1139,8 +1176,12 @@ func (fc *FuncCtx) scanWrites(blocks []*ssa.BasicBlock, fr *Frame, ws *writeSet,
 
 func (fc *FuncCtx) scanCall(ci ssa.CallInstruction, fr *Frame, ws *writeSet, depth int) {
 	v := fc.v
-	if _, isDefer := ci.(*ssa.Defer); isDefer {
-		return
+	if d, isDefer := ci.(*ssa.Defer); isDefer {
+		// deferred closures that write captured variables are executed at the function's returns (see instr.go): their
+		// writes belong to the write set; every other deferred call is not executed by the model
+		if !deferredClosureWrites(d) {
+			return
+		}
 	}
 	if _, isGo := ci.(*ssa.Go); isGo {
 		unsupported("go statement")
@@ -1172,7 +1213,10 @@ func (fc *FuncCtx) scanCall(ci ssa.CallInstruction, fr *Frame, ws *writeSet, dep
 		return
 	}
 	spec := v.specFor(key)
-	if spec != nil && spec.Inline && callee != nil && len(callee.Blocks) > 0 {
+	if spec != nil && spec.Model != "" {
+		callee = fc.modelFunc(key, spec, len(fc.allArgs(com)))
+	}
+	if spec != nil && (spec.Inline || spec.Model != "") && callee != nil && len(callee.Blocks) > 0 {
 		nfr := &Frame{fn: callee, vals: map[ssa.Value]Val{}, free: map[*ssa.FreeVar]Val{}, fc: fc, parent: fr}
 		// closures passed as arguments are called by the inlined body: their writes to captured cells belong to the write set
 		args := fc.allArgs(com)
@@ -1191,7 +1235,24 @@ func (fc *FuncCtx) scanCall(ci ssa.CallInstruction, fr *Frame, ws *writeSet, dep
 			}
 		}
 		fc.scanWrites(callee.Blocks, nfr, ws, depth+1)
+		// map-typed parameters updated by the inlined body: the caller's variable the argument was loaded from is written
+		for i := range mapParamsUpdated(callee) {
+			if i >= len(args) {
+				continue
+			}
+			if u, ok := args[i].(*ssa.UnOp); ok && u.Op == token.MUL {
+				cell, hk := fc.rootOf(u.X, fr)
+				if cell != nil {
+					ws.cells[cell] = true
+				} else if hk != "" {
+					ws.globals[hk] = true
+				}
+			}
+		}
 		return
+	}
+	if spec == nil && clo == nil && !com.IsInvoke() {
+		spec = fc.dynCallSpec(key)
 	}
 	if spec == nil && clo == nil && !com.IsInvoke() && fr.fn != fc.fn && strings.HasPrefix(key, "dynamic:") {
 		// a function value called inside an inlined body that could not be resolved to a closure: it may be a closure of the
@@ -1241,6 +1302,9 @@ func (fc *FuncCtx) scanCall(ci ssa.CallInstruction, fr *Frame, ws *writeSet, dep
 					unsupported("modifies %s of %s: cannot resolve pointer type %q", m, key, tn)
 				}
 				ws.globals[v.heapKeyFor(pointee(gt))] = true
+			case m.Kind == "un" && m.Name == "*" && m.Args[0].Kind == "field" && specPathType(m.Args[0], names, tys) != nil && pointee(specPathType(m.Args[0], names, tys)) != nil:
+				// *p.f.g: the object a field path from a parameter points to
+				ws.globals[v.heapKeyFor(pointee(specPathType(m.Args[0], names, tys)))] = true
 			case m.Kind == "call" && m.Name == "elems":
 				for i, n := range names {
 					if n == m.Args[0].Name {
@@ -1271,7 +1335,7 @@ func (fc *FuncCtx) scanCall(ci ssa.CallInstruction, fr *Frame, ws *writeSet, dep
 		ws.globals[w] = true
 	}
 	for _, a := range fc.allArgs(com) {
-		for _, hk := range fc.reachableHeaps(a.Type()) {
+		for _, hk := range fc.reachableHeaps(argStaticType(a)) {
 			ws.globals[hk] = true
 		}
 		// address of a cell passed to an opaque call: the cell is havoced
@@ -1621,4 +1685,43 @@ func (fc *FuncCtx) returnKey(r *ssa.Return) string {
 		}
 	}
 	return fmt.Sprintf("%s#%d", mine, rank)
+}
+
+// specPathType gives the Go type of a field path p.f.g rooted at a callee parameter (auto-deref through pointers and embedded
+// fields, as in spec expressions); nil when the path cannot be resolved statically.
+func specPathType(e *Expr, names []string, tys []types.Type) types.Type {
+	switch e.Kind {
+	case "id":
+		for i, n := range names {
+			if n == e.Name {
+				return tys[i]
+			}
+		}
+		return nil
+	case "field":
+		bt := specPathType(e.Args[0], names, tys)
+		if bt == nil {
+			return nil
+		}
+		obj, _, _ := types.LookupFieldOrMethod(bt, true, nil, e.Name)
+		if obj == nil {
+			// unexported fields need the package of the type
+			if n, ok := derefNamed(bt); ok && n.Obj().Pkg() != nil {
+				obj, _, _ = types.LookupFieldOrMethod(bt, true, n.Obj().Pkg(), e.Name)
+			}
+		}
+		if f, ok := obj.(*types.Var); ok && f.IsField() {
+			return f.Type()
+		}
+		return nil
+	}
+	return nil
+}
+
+func derefNamed(t types.Type) (*types.Named, bool) {
+	if p, ok := t.Underlying().(*types.Pointer); ok {
+		t = p.Elem()
+	}
+	n, ok := t.(*types.Named)
+	return n, ok
 }
